@@ -50,7 +50,7 @@ var c11NumSites = map[string][]c11NumSite{
 	"ChunklistFunc":  {{1, "count", "collection.go Impl: size < 0; (i+1)%size", 0, false}},
 	"SubstrFunc":     {{1, "offset", "string.go Impl: offset += totalLen; seek loop pos == offset; sub[i:]", 0, false}, {2, "length", "string.go Impl: length == 0, < 0; pos == length; sub[:i]", 0, false}},
 	"BytesSliceFunc": {{1, "offset", "bytes.go Impl: offset > len(buf); (*bufPtr)[offset:offset+length]", 0, false}, {2, "length", "bytes.go Impl: length > len(buf)-offset", 0, false}},
-	"IndentFunc":     {{0, "alloc", "string.go Impl: strings.Repeat(\" \", spaces) — allocated even when the string has no newline", 1, true}},
+	"IndentFunc":     {{0, "alloc", "string.go Impl: strings.Repeat(\" \", spaces) — only when the string has a line break and the result stays within MaxInt32 bytes (since /repo d4d90b0)", 1, true}},
 	"ParseIntFunc":   {{1, "base", "number.go Impl: base < 2 || base > 62; big.Int.SetString(numstr, base)", -1, false}},
 	"RangeFunc":      {{-1, "step", "sequence.go Impl: loop num.Add(step) bounded by 1024 values; step == 0, ±inf", -1, false}},
 	"LogFunc":        {{-1, "float", "number.go Impl: gocty float64; math.Log(num)/math.Log(base); NaN check", -1, false}},
@@ -76,9 +76,9 @@ var c11NumSites = map[string][]c11NumSite{
 
 // functions whose string / list arguments carry numbers: handled by their own generators below
 var c11CustomSites = map[string]string{
-	"FormatFunc":     "format.go/format_fsm.go: verb.Width = 10*Width+d, verb.Prec likewise (no overflow check); formatArgNumAppendDigit; args[argIdx]; formatPadWidth: strings.Repeat(pad, Width-len) [alloc]; str[:pos] by precision; fmt.Sprintf(raw verb, big.Int/big.Float)",
+	"FormatFunc":     "format.go/format_fsm.go: verb.Width, verb.Prec and the argument number through formatArgNumAppendDigit (saturating); width/precision > 10^6 refused (since /repo 84cbc5e); args[argIdx]; formatPadWidth: strings.Repeat(pad, Width-len) [alloc]; str[:pos] by precision; fmt.Sprintf(raw verb, big.Int/big.Float)",
 	"FormatListFunc": "format.go: as format, per element; lists of one length",
-	"SetProductFunc": "collection.go Impl: total *= arg.LengthInt() (no overflow check); make([][]cty.Value, total) [alloc]; thresholds argMaxLen > 1024, maxLength > 2048, maxLength < 0",
+	"SetProductFunc": "collection.go Impl: total *= arg.LengthInt() guarded by maxTotal = MaxInt32/len(args) (since /repo 490ecb9); make([][]cty.Value, total) [alloc]; thresholds argMaxLen > 1024, maxLength > 2048, maxLength < 0",
 	"FormatDateFunc": "datetime_rfc3339.go: s[0:4] … s[17:19], s[19:], str[len(str)-len(\"07:00\"):] after time.Parse accepted what the strict parser refused; datetime.go: tok[1:len(tok)-1], m.String()[:3]",
 	"TimeAddFunc":    "datetime.go: time.ParseDuration; ts.Add(duration) (int64 nanoseconds, saturating)",
 	"ZipmapFunc":     "collection.go: len(keysRaw) != len(valueTypesRaw); keys.LengthInt() != values.LengthInt(); values.Index(i)",
